@@ -151,6 +151,42 @@ fn vec_one(v: &Value) -> Value {
             rp_err = "no well-formed Remaining Length in the serialisation".into();
         }
     }
+    // other builder call sequences for the same packet
+    let mut ow = "na".to_string();
+    let mut orphan = "na".to_string();
+    if let Some(pkt) = &pkt {
+        if let Some(Some(r2)) = pn.run("build-overwrite", || pk::build_variant(p, "overwrite")) {
+            ow = match r2 {
+                Ok(q) => {
+                    let same = pn.run("overwrite-compare", || q.cont() == cont && q.eq_dyn(pkt.as_ref())).unwrap_or(false);
+                    if same { "same".into() } else { "differs".into() }
+                }
+                Err(_) => "differs".into(),
+            };
+        }
+        if let Some(Some(r2)) = pn.run("build-orphan", || pk::build_variant(p, "orphan")) {
+            orphan = match r2 {
+                Err(_) => "refused".into(),
+                Ok(q) => {
+                    let ok = pn
+                        .run("orphan-roundtrip", || {
+                            let c2 = q.cont();
+                            match split_header(&c2) {
+                                Some((rl, _)) => match pk::parse(&k, &ver, w, c2[0] & 0x0f, &c2[(1 + rl).min(c2.len())..]) {
+                                    Ok((q2, _)) => q2.eq_dyn(q.as_ref()) && q.size() == c2.len(),
+                                    Err(_) => false,
+                                },
+                                None => false,
+                            }
+                        })
+                        .unwrap_or(false);
+                    if ok { "roundtrips".into() } else { "unequal".into() }
+                }
+            };
+        }
+    }
+    m.insert("ow".into(), json!(ow));
+    m.insert("orphan".into(), json!(orphan));
     let d = first_diff(&cont, &reference);
     m.insert("size".into(), json!(size));
     m.insert("cont_len".into(), json!(cont.len()));
